@@ -6,6 +6,7 @@ import (
 	"fmt"
 	"go/token"
 	"go/types"
+	"regexp"
 	"sort"
 	"strings"
 
@@ -507,6 +508,9 @@ func (g *Gen) checkPost(res []string, pos token.Pos) {
 			continue
 		}
 		k++
+		if m := retSuffixRe.FindStringSubmatch(cl.Label); m != nil && m[1] != fmtf("%d", rn) {
+			continue // clause restricted to one return (label ..._retN, N in source order)
+		}
 		t, err := env.evalBool(cl.E)
 		if err != nil {
 			if strings.HasPrefix(cl.Label, "local") && strings.Contains(err.Error(), "unknown name") {
@@ -692,6 +696,8 @@ func (g *Gen) havocArgs(cc *ssa.CallCommon) {
 	}
 	g.havocKeys(keys)
 }
+
+var retSuffixRe = regexp.MustCompile(`_ret(\d+)$`)
 
 func hasModifies(fc *FuncContract) bool {
 	for _, c := range fc.Clauses {
